@@ -167,9 +167,11 @@ int64_t nowNs() {
   int64_t t = g.time_base + (int64_t)g.steps * 50 + g.dilation_closed;
   if (g.cur) { Task& c = g.t[g.cur]; t += dilationOf(c.yields - c.blocked_at); }
   if (g.cfg.sleeper_patience > 0) {
-    int64_t target = -1;
-    for (int i = 1; i <= g.ntasks; ++i) { Task& b = g.t[i]; if (b.state == 2 && b.deadline > t && g.steps - b.blocked_step > (uint64_t)g.cfg.sleeper_patience && b.deadline > target) target = b.deadline; }
-    if (target > t) { g.time_base += target - t; t = target; }
+    /* ... to the EARLIEST pending deadline (the next event), as when every task is blocked: jumping to the deadline of the impatient sleeper itself
+       could skip minutes (an idle event loop waits 300 s) and bury 1 ms timers under catch-up work - seen in the soak as C14 false alarms */
+    int64_t target = -1; bool impatient = false;
+    for (int i = 1; i <= g.ntasks; ++i) { Task& b = g.t[i]; if (b.state == 2 && b.deadline > t) { if (g.steps - b.blocked_step > (uint64_t)g.cfg.sleeper_patience) impatient = true; if (target < 0 || b.deadline < target) target = b.deadline; } }
+    if (impatient && target > t) { g.time_base += target - t; t = target; }
   }
   return t;
 }
